@@ -668,6 +668,7 @@ int main(int argc, char ** argv)
 	std::set_terminate(onTerminate);
 	const bool faultMode = argc > 2 && std::string(argv[2]) == "--fault";
 	const int faultKinds = argc > 3 ? std::atoi(argv[3]) : 3;
+	const bool succession = argc > 4 && std::string(argv[4]) == "succession";
 	long faultRuns = 0, faultsFired = 0;
 	H.reserve(256); HE.reserve(256);
 #if W_FILTER == 1
@@ -703,6 +704,22 @@ int main(int argc, char ** argv)
 				disarmFault();
 				if(threw) evx(target == "tk" ? "xk" : "xf", 0, (int)k, 0, 0, 0);
 				else if(fired && target != "dp" && target.substr(0, 1) != "p") evx("xs", 0, (int)k, 0, 0, 0);     // swallowed
+				// faults in succession: an operation that failed leaving everything as it was is tried again at once and fails at the same
+				// point a second time, then a third attempt is left alone and must go through as if nothing had happened
+				if(threw && target != "tk" && target != "dp" && target.substr(0, 1) != "p" && succession) {
+					const size_t at = ip - 1;
+					ip = at;
+					evx("fa", 0, (int)k, 0, 0, 0);
+					bool threw2 = false;
+					armFault(k, faultKinds);
+					try { step(); }
+					catch(const std::bad_alloc &) { threw2 = true; }
+					catch(const Fault &) { threw2 = true; }
+					const bool fired2 = g_faultFired;
+					disarmFault();
+					if(threw2) { evx("xf", 0, (int)k, 0, 0, 0); ip = at; step(); }
+					else if(fired2) evx("xs", 0, (int)k, 0, 0, 0);
+				}
 				epilogue();
 				++faultRuns;
 				if(fired) ++faultsFired;
